@@ -35,9 +35,9 @@ def root_of(e):
     return e
 
 
-def er7_or_exc(e):
+def er7_or_exc(e, trailing=False):
     try:
-        return e.to_er7()
+        return e.to_er7(trailing_children=True) if trailing else e.to_er7()
     except Exception as x:     # the snapshot records the exception class instead of failing
         return 'EXC:' + type(x).__name__
 
@@ -50,7 +50,11 @@ def snapshot(e, with_er7=True):
     if val is not None:
         leaf = getattr(val, 'value', val)
         leaf = '%s:%s' % (type(val).__name__, leaf)
-    return (er7_or_exc(e) if with_er7 else None, type(e).__name__, d.get('name'), d.get('_datatype'), leaf,
+    enc = None
+    if with_er7:
+        # both encodings: with trailing children the open-ended bookkeeping of segments becomes observable
+        enc = er7_or_exc(e) + '\x00' + er7_or_exc(e, True)
+    return (enc, type(e).__name__, d.get('name'), d.get('_datatype'), leaf,
             tuple((id(c), snapshot(c, False)) for c in kids(e)))
 
 
